@@ -191,8 +191,14 @@ class ConnWorld:
                 ops += [(k, n) for n in NEW if n in spec['objects']
                         and not m[n].committed
                         and (m[n].in_root or m[n].in_a or m[n].owned)
-                        and (m[n].new_in_txn or not m[n].owned)
-                        and not self.handles]
+                        and (m[n].new_in_txn or not m[n].owned)]
+            elif k == 'savepoint-unpicklable':
+                # a savepoint whose flush fails half way, at a NEW object
+                # that cannot be pickled
+                ops += [(k, n) for n in NEW if n in spec['objects']
+                        and not m[n].committed
+                        and (m[n].in_root or m[n].in_a or m[n].owned)
+                        and (m[n].new_in_txn or not m[n].owned)]
             elif k == 'savepoint':
                 if len(self.handles) < spec.get('max_handles', 2) and (
                         not getattr(self, 'rivalled', False)
@@ -384,14 +390,17 @@ class ConnWorld:
             self.tm.abort()
             self._model_abort()
             return 'abort'
-        if k == 'commit-unpicklable':
+        if k in ('commit-unpicklable', 'savepoint-unpicklable'):
             n = op[1]
             o = self.objs[n]
             o.bad = (lambda: 0)
             if m[n].owned:
                 m[n].dirty = True
             try:
-                self.tm.commit()
+                if k == 'commit-unpicklable':
+                    self.tm.commit()
+                else:
+                    self.tm.savepoint()
                 self.bad('commit', 'unpicklable-state-committed', dict(obj=n))
                 self.dead = True
                 return 'error'
@@ -403,7 +412,7 @@ class ConnWorld:
             except AttributeError:
                 pass
             self._model_abort()
-            return 'commit-unpicklable'
+            return k
         if k in ('commit', 'commit-vote-fail', 'commit-finish-fail'):
             return self._commit(k)
         if k == 'close':
